@@ -213,6 +213,21 @@ func TestVerifC08(t *testing.T) {
 	} {
 		addCfg(parts, false, "hazard")
 	}
+	// (i-a) Annex I query parameters: every configured key/value list against query strings that carry the keys
+	// more often, less often, in another order, without a value, or not at all
+	for _, ax := range []string{"a=1", "a=1,b=2", "a=1,a=3", "a=1,b=3,a=3", "a=1,a=1", "a=,b=2", "a=1,a=2,a=3"} {
+		for _, q := range []string{"", "a=1", "a=3", "a=1&a=3", "a=3&a=1", "a=1&a=3&a=5", "a=1&a=2&a=3&a=4", "b=2", "a=1&b=2", "b=3&a=1", "b=3&a=1&a=3", "a=", "a", "a=1&a=1", "A=1", "a=1&c=7"} {
+			for _, ep := range []string{"Manifest.mpd", "V300/40.m4s", "A48/40.m4s", "V300/init.mp4"} {
+				for _, pre := range [][]string{{}, {"segtimeline_1"}} {
+					u := fmt.Sprintf("%s/testpic_2s/%s?nowMS=%d", vCfgPrefix(append(append([]string{}, pre...), "annexI_"+ax)...), ep, now)
+					if q != "" {
+						u += "&" + q
+					}
+					cases = append(cases, c08Case{method: "GET", url: u, label: "annexI-query"})
+				}
+			}
+		}
+	}
 	// (i-b) configuration-like parts after the asset path: they are not parsed as configuration, but
 	// code that scans the URL parts (Location, patch base URL) still sees them
 	for _, pre := range [][]string{{}, {"startrel_-10"}, {"stoprel_20"}, {"startrel_-10", "stoprel_20"}, {"patch_60", "segtimeline_1"}, {"periods_60"}} {
